@@ -1,6 +1,7 @@
 package checks
 
 import (
+	"io"
 	"bufio"
 	"crypto/sha1"
 	"encoding/hex"
@@ -62,7 +63,18 @@ var c17SentinelFiles = map[string]string{ // path relative to the scratch root -
 	"dir/cwd/a.txt":    "SENT_CWD_TXT",
 	"dir/cwd/..gr":     "SENT_CWD_DOTDOTGR",
 	"dir/cwd/a.gr.bak": "SENT_CWD_BAK",
+	// directories whose names are long runs of letters (a check that only looks at a prefix of the name)
+	"dir/cwd/" + c17Long63 + "/x.gr":  "SENT_LONG63",
+	"dir/cwd/" + c17Long64 + "/x.gr":  "SENT_LONG64",
+	"dir/cwd/" + c17Long300 + "/x.gr": "SENT_LONG200",
+	"dir/cwd/\u0141/x.gr":            "SENT_LSTROKE",
 }
+
+var (
+	c17Long63  = strings.Repeat("a", 63)
+	c17Long64  = strings.Repeat("a", 64)
+	c17Long300 = strings.Repeat("b", 200)
+)
 
 func c17BuildTree() (root string, err error) {
 	root, err = os.MkdirTemp("", "c17-")
@@ -133,6 +145,23 @@ func c17Names(maxLen int) []string {
 		out = append(out, sb.String(), sb.String()+".gr")
 		return true
 	})
+	// beyond the enumeration: multi-byte characters whose code point modulo 256 is a letter or digit, and names longer
+	// than any fixed-size buffer, alone and followed by path syntax
+	for _, m := range []string{"\u0141", "a\u0141", "\u0141a", "\u0130", "\u0261", "\u0141\u0141", "\u00e9", "\u0141/x", "\U00010141", "a\u2030b", "\uff41"} {
+		out = append(out, m, m+".gr")
+	}
+	for _, n := range []int{63, 64, 65, 127, 128, 129, 200, 255, 256, 257, 1000, 4096, 5000} {
+		base := strings.Repeat("a", n)
+		if n == 200 { // (the directory that exists is 200 long: file names are limited to 255 bytes)
+			base = c17Long300
+		}
+		for _, suf := range []string{"", "/", "/x", "/..", "/../../outer", "/../a", ".", "..", "\x00", " ", "/.gr", "~", ".gr.gr", "/x.gr"} {
+			out = append(out, base+suf)
+			if suf != "" && !strings.HasSuffix(suf, ".gr") {
+				out = append(out, base+suf+".gr")
+			}
+		}
+	}
 	return out
 }
 
@@ -256,7 +285,7 @@ func c17Child(args []string) int {
 						report("write-outside", fmt.Sprintf("save(%q) changed %s (allowed: %q)", name, d, target), name)
 					}
 				}
-				if target != "" && failed {
+				if target != "" && failed && len(target) <= 255 { // (longer plain names are refused by the file system itself)
 					report("save-rejects-plain-name", fmt.Sprintf("save(%q) failed: %v", name, r.errs), name)
 				}
 				if target == "" && !failed && cfg != "disabled" {
@@ -307,6 +336,9 @@ func c17CheckTrace(cfg, logPath, cwd string) (viol [][2]string, calls int) {
 		if strings.Contains(line, "verif-c17-end-marker") {
 			break
 		}
+		if strings.Contains(line, "ENAMETOOLONG") {
+			continue // the kernel refused the path before looking at it (strace shows only its first PATH_MAX bytes)
+		}
 		m := c17SysRe.FindStringSubmatch(line)
 		if m == nil {
 			continue
@@ -355,7 +387,11 @@ func c17CheckTrace(cfg, logPath, cwd string) (viol [][2]string, calls int) {
 				if writes {
 					kind = "write"
 				}
-				viol = append(viol, [2]string{"syscall-" + kind + "-outside", fmt.Sprintf("%s(%s)", sys, trunc(rest, 160))})
+				short := p
+				if len(short) > 120 {
+					short = fmt.Sprintf("%s…(%d bytes)…%s", p[:40], len(p), p[len(p)-60:])
+				}
+				viol = append(viol, [2]string{"syscall-" + kind + "-outside", fmt.Sprintf("%s(%q, %s", sys, short, trunc(rest[strings.LastIndex(rest, "\"")+1:], 80))})
 			}
 		}
 	}
@@ -408,6 +444,97 @@ func strconvUnquoteStrace(s string) (string, error) {
 		}
 	}
 	return sb.String(), nil
+}
+
+// c17CLI runs the grol command with -restrict-io from a work directory, with scripts inside and outside of it: load
+// and save must only ever reach plain names of the work directory, wherever the script itself lives.
+func c17CLI(c *core.Ctx) int {
+	if c.Shard != 0 && c.Of > 1 {
+		return 0
+	}
+	self, _ := os.Executable()
+	grol := self + ".grol"
+	if _, err := os.Stat(grol); err != nil {
+		c.Note("cli-binary-missing", 1)
+		return 0
+	}
+	n := 0
+	for _, where := range []string{"inside", "outside", "parent"} {
+		for _, mode := range []string{"file", "shebang", "stdin", "command"} {
+			for _, op := range []string{"load", "save"} {
+				for _, name := range []string{"lib", "lib.gr", "here"} {
+					root, err := os.MkdirTemp("", "c17cli-")
+					if err != nil {
+						return n
+					}
+					work := filepath.Join(root, "top", "work")
+					elsewhere := filepath.Join(root, "elsewhere")
+					_ = os.MkdirAll(work, 0o755)
+					_ = os.MkdirAll(elsewhere, 0o755)
+					scriptDir := map[string]string{"inside": work, "outside": elsewhere, "parent": filepath.Join(root, "top")}[where]
+					// sentinels that must never be read: next to the script (unless that is the work directory) and above
+					for _, d := range []string{elsewhere, filepath.Join(root, "top"), root} {
+						_ = os.WriteFile(filepath.Join(d, "lib.gr"), []byte("SENTINEL_"+filepath.Base(d)+" = 1\n"), 0o644)
+					}
+					_ = os.WriteFile(filepath.Join(work, "here.gr"), []byte("HERE = 1\n"), 0o644)
+					prog := fmt.Sprintf("r = catch(%s(%q)); println(\"RESULT\", r.err, catch(HERE).err, catch(SENTINEL_elsewhere).err, catch(SENTINEL_top).err)\n", op, name)
+					script := filepath.Join(scriptDir, "script.gr")
+					_ = os.WriteFile(script, []byte(prog), 0o644)
+					before := c17Snapshot(root)
+					args := []string{"-restrict-io", "-no-auto", "-quiet"}
+					var stdin io.Reader
+					switch mode {
+					case "file":
+						args = append(args, script)
+					case "shebang":
+						args = append(args, "-s", script)
+					case "stdin":
+						args = append(args, "-")
+						stdin = strings.NewReader(prog)
+					case "command":
+						args = append(args, "-c", prog)
+					}
+					cmd := exec.Command(grol, args...)
+					cmd.Dir = work
+					cmd.Stdin = stdin
+					cmd.Env = append(os.Environ(), "NO_COLOR=1")
+					outb, _ := cmd.CombinedOutput()
+					out := string(outb)
+					after := c17Snapshot(root)
+					diff := c17Diff(before, after)
+					key := fmt.Sprintf("cli %s script=%s %s(%q)", mode, where, op, name)
+					cs := core.Case{Kind: "cli", Cfg: mode + "/" + where, Data: op + " " + name}
+					outcome := "confined"
+					wantFile := "top/work/" + strings.TrimSuffix(name, ".gr") + ".gr"
+					for _, d := range diff {
+						if !(op == "save" && d == wantFile) {
+							outcome = "write-outside"
+							c.Report(&core.Viol{Class: "cli:write-outside", Detail: fmt.Sprintf("%s changed %s", key, d), Case: cs})
+						}
+					}
+					if strings.Contains(out, "RESULT") {
+						f := strings.Fields(out[strings.Index(out, "RESULT"):])
+						// f[1]=op failed, f[2]=HERE undefined, f[3], f[4]=sentinels undefined
+						if len(f) >= 5 && (f[3] != "true" || f[4] != "true") {
+							outcome = "read-outside"
+							c.Report(&core.Viol{Class: "cli:read-outside", Detail: fmt.Sprintf("%s defined a sentinel from outside the work directory: %s", key, firstLine(out[strings.Index(out, "RESULT"):])), Case: cs})
+						}
+						if len(f) >= 5 && op == "load" && name != "here" && f[1] != "true" {
+							outcome = "load-of-missing-name-succeeds"
+							c.Report(&core.Viol{Class: "cli:load-of-missing-name-succeeds", Detail: fmt.Sprintf("%s: no such file in the work directory, yet load did not fail: %s", key, firstLine(out[strings.Index(out, "RESULT"):])), Case: cs})
+						}
+					} else {
+						outcome = "no-result"
+						c.Report(&core.Viol{Class: "harness: cli run produced no result", Detail: key + ": " + trunc(out, 300), Case: cs})
+					}
+					c.CountNT(key, "cli:"+outcome, true)
+					n++
+					_ = os.RemoveAll(root)
+				}
+			}
+		}
+	}
+	return n
 }
 
 func runC17(c *core.Ctx) {
@@ -464,7 +591,7 @@ func runC17(c *core.Ctx) {
 				traceFile = tf.Name()
 				tf.Close()
 				defer os.Remove(traceFile)
-				cmd = exec.Command("strace", append([]string{"-f", "-qq", "-s", "256", "-e", "trace=%file", "-o", traceFile, self}, args...)...)
+				cmd = exec.Command("strace", append([]string{"-f", "-qq", "-s", "9000", "-e", "trace=%file", "-o", traceFile, self}, args...)...)
 			} else {
 				cmd = exec.Command(self, args...)
 			}
@@ -563,6 +690,10 @@ func runC17(c *core.Ctx) {
 			c.Note("traced_file_syscalls_"+r.j.cfg, r.ctrl)
 		}
 	}
+	ncli := c17CLI(c)
+	defer func() {
+		c.P.Bound += fmt.Sprintf("; plus multi-byte and 63..5000-byte names with path syntax appended; the grol command itself (%d runs: file / shebang / stdin / -c modes x script inside or outside the current directory x load and save of names that exist next to the script or above it)", ncli)
+	}()
 	c.P.Bound = fmt.Sprintf("every name of <=%d symbols over the 13-symbol alphabet {a Z 0 _ g r . / \\ NUL space ~ 0xFF}, bare and with .gr appended, x save/load/image.save in restricted mode (<=3 symbols in empty-only and disabled mode); reverse enumeration order; syscall trace (strace) layer for names of <=%d symbols per configuration; unrestricted mode as positive control", maxLen, traceLen)
 }
 
